@@ -181,6 +181,19 @@ theorem C04_forced_jump_allowed (d : Dist) (to : Int) (delta : Int) (hi : d.init
     step d (.jump (some to) delta true) = (doJump d to, .ok none) := by
   simp [step, jumpTo, hi]
 
+/-- Changing a distribution's parameters does not make a spent strict distribution drawable again: after a draw,
+    `set(...)` and a second draw in the same step, the second draw is still refused. -/
+theorem C04_set_does_not_rearm (d : Dist) (n m : Nat) (hn : n ≠ 0)
+    (hi : d.initialized = true) (hr : d.ready = true) (hs : d.strict = true) (ha : d.auto = false) :
+    (step (step (step d (.rvs n false)).1 .setPars).1 (.rvs m false)).2 = .error .notReady := by
+  simp [step, hi, hr, hs, ha, hn]
+
+/-- Negative jump indices (burn-in) are positions like any other: two different negative indices are two different
+    positions, and the order theorems above cover them (`ind : Int`). -/
+theorem C04_negative_indices_distinct (d : Dist) (i j : Int) (hij : i ≠ j) (hi : d.initialized = true) :
+    (step d (.jump (some i) 1 true)).1.pos ≠ (step d (.jump (some j) 1 true)).1.pos := by
+  simp [step, jumpTo, hi, doJump, hij]
+
 /-- An empty request returns before touching any state. -/
 theorem C04_empty_request_no_state_change (d : Dist) (r : Bool) (hi : d.initialized = true) (hr : d.ready = true) :
     step d (.rvs 0 r) = (d, .ok none) := by
